@@ -136,6 +136,39 @@ class Fitted:
         return [r]
 
 
+_NOT_ACCESSORS = {
+    "fit", "transform", "inverse_transform", "compute", "serialize", "deserialize", "save", "load", "get_params",
+    "get_serialization_attrs", "fit_transform", "predict", "check_needed_module",
+    "get_metadata_routing", "set_fit_request", "set_transform_request", "set_params",
+}  # fmt: skip
+
+
+def accessors(m):
+    """names of all public methods of the model that can be called without arguments (found by introspection)"""
+    import inspect
+
+    out = []
+    for k, v in inspect.getmembers(type(m), predicate=inspect.isfunction):
+        if k.startswith("_") or k in _NOT_ACCESSORS:
+            continue
+        ps = list(inspect.signature(v).parameters.values())[1:]
+        if any(p.default is inspect._empty and p.kind not in (p.VAR_KEYWORD, p.VAR_POSITIONAL) for p in ps):
+            continue
+        out.append(k)
+    return sorted(out)
+
+
+def call_all_accessors(m):
+    n = 0
+    for a in accessors(m):
+        try:
+            getattr(m, a)()
+            n += 1
+        except Exception:  # noqa: BLE001
+            pass
+    return n
+
+
 def perturbed(d):
     """other values in the same structure and with another covariance (rolled by one along the first axis, rescaled,
     plus a quadratic term); lazy data stays lazy"""
@@ -160,13 +193,7 @@ def _age(m, k, data, dim, weights):
             m.fit(list(other), dim=dim)
             sc = None
         m.components()
-        for acc in ("filter_patterns", "eigenvalues", "explained_variance", "singular_values", "squared_covariance_fraction"):
-            fn = getattr(m, acc, None)
-            if callable(fn):
-                try:
-                    fn()
-                except Exception:  # noqa: BLE001
-                    pass
+        call_all_accessors(m)
         if sc is not None and hasattr(m, "inverse_transform"):
             try:
                 m.inverse_transform(*sc)
